@@ -74,6 +74,21 @@ func outlineOf(o *d2graph.Object) []geom.Poly {
 			polys = append(polys, geom.Rect(tl.X, tl.Y, d2target.MAX_ICON_SIZE, d2target.MAX_ICON_SIZE))
 		}
 	}
+	// "the shape's box extended by its outside label and icon": the border of the box grown to
+	// cover them (the margin the layout engines reserve) is part of the extent as well
+	x1, y1, x2, y2 := o.TopLeft.X, o.TopLeft.Y, o.TopLeft.X+o.Width, o.TopLeft.Y+o.Height
+	grown := false
+	for _, q := range polys {
+		for _, p := range q.Pts {
+			if p.X < x1-0.01 || p.Y < y1-0.01 || p.X > x2+0.01 || p.Y > y2+0.01 {
+				grown = true
+			}
+			x1, y1, x2, y2 = math.Min(x1, p.X), math.Min(y1, p.Y), math.Max(x2, p.X), math.Max(y2, p.Y)
+		}
+	}
+	if grown {
+		polys = append(polys, geom.Rect(x1, y1, x2-x1, y2-y1))
+	}
 	return polys
 }
 
@@ -137,13 +152,59 @@ func c20sig(c layCase, kind string) string {
 	if kind == "3d-multiple" {
 		return "end-off-extent:3d-multiple"
 	}
-	if c.Kind == "tame" || c.Kind == "snippet" {
+	if c.Kind == "tame" || c.Kind == "snippet" || c.Kind == "leafdeco" {
 		return "end-off-extent:" + kind
 	}
 	return "end-off-extent@unrestricted-diagram"
 }
 
+// genLeafDeco: root-level leaves only (no containers, no 3d/multiple), some with an outside
+// label or icon, long or multi-line labels, any root direction, both engines: the margins that
+// outside labels and icons need are added before layout and taken away after it, and every
+// connection end has to be moved along. Asserted strictly (kind "leafdeco").
+func genLeafDeco(t *rapid.T) layCase {
+	var sb strings.Builder
+	if d := rapid.SampledFrom([]string{"", "up", "up", "down", "left", "right"}).Draw(t, "dir"); d != "" {
+		fmt.Fprintf(&sb, "direction: %s\n", d)
+	}
+	n := rapid.IntRange(2, 6).Draw(t, "n")
+	outside := []string{"outside-top-left", "outside-top-center", "outside-top-right", "outside-bottom-left", "outside-bottom-center", "outside-bottom-right", "outside-left-center", "outside-right-center"}
+	for i := 0; i < n; i++ {
+		lbl := rapid.SampledFrom([]string{"x", "node", "a longer label here", "two\\nlines", "three\\nline\\nlabel"}).Draw(t, "lbl")
+		fmt.Fprintf(&sb, "n%d: \"%s\" {\n", i, lbl)
+		switch rapid.IntRange(0, 5).Draw(t, "deco") {
+		case 0, 1:
+			fmt.Fprintf(&sb, "  label.near: %s\n", rapid.SampledFrom(outside).Draw(t, "lnear"))
+		case 2:
+			fmt.Fprintf(&sb, "  icon: https://icons.terrastruct.com/essentials/004-picture.svg\n  icon.near: %s\n", rapid.SampledFrom(outside).Draw(t, "inear"))
+		case 3:
+			fmt.Fprintf(&sb, "  label.near: %s\n", rapid.SampledFrom([]string{"top-center", "bottom-center", "top-left", "bottom-right", "center-left"}).Draw(t, "lin"))
+		}
+		sb.WriteString("}\n")
+	}
+	ne := rapid.IntRange(1, 6).Draw(t, "ne")
+	for i := 0; i < ne; i++ {
+		a, b := rapid.IntRange(0, n-1).Draw(t, "ea"), rapid.IntRange(0, n-1).Draw(t, "eb")
+		if a == b {
+			continue
+		}
+		fmt.Fprintf(&sb, "n%d -> n%d\n", a, b)
+	}
+	// strict only where d2 is clean: ELK without outside icons. With dagre (root direction
+	// left/right) and with outside icons ends float 4-30 px off also on the unchanged tree; those
+	// diagrams count as unrestricted (known finding)
+	eng := rapid.SampledFrom([]string{"elk", "elk", "dagre"}).Draw(t, "eng")
+	kind := "leafdeco"
+	if eng == "dagre" || strings.Contains(sb.String(), "icon.near") {
+		kind = "leafdeco-open"
+	}
+	return layCase{Text: sb.String(), Engine: eng, Kind: kind}
+}
+
 func genC20(t *rapid.T) layCase {
+	if gen.Pick(t, "leafdeco", 2, 1) == 1 {
+		return genLeafDeco(t)
+	}
 	if gen.Pick(t, "tame", 2, 1) == 0 {
 		o := gen.TameDiagramOpts()
 		o.Grids, o.Sequences = true, true
